@@ -8,6 +8,7 @@ import (
 	"os"
 	"path/filepath"
 	"strings"
+	"sync"
 	"testing"
 	"time"
 
@@ -19,8 +20,10 @@ import (
 // C16 server half: version negotiation, serverInfo, advertised capabilities
 
 type C16Step struct {
-	Op      string `json:"op"` // init regtool regprompt regresource
-	Version string `json:"version,omitempty"`
+	Op      string   `json:"op"` // init regtool regprompt regresource initburst
+	Version string   `json:"version,omitempty"`
+	Burst   []string `json:"burst,omitempty"`  // initburst: the versions requested by handshakes issued at the same time (one goroutine each)
+	Rounds  int      `json:"rounds,omitempty"` // initburst: every goroutine repeats its handshake this many times
 }
 
 type C16Case struct {
@@ -39,10 +42,20 @@ func genC16(t *rapid.T) C16Case {
 		Version: rapid.SampledFrom([]string{"1.0.0", "", "v2-β", "0"}).Draw(t, "version")}
 	n := rapid.IntRange(1, 8).Draw(t, "nsteps")
 	for i := 0; i < n; i++ {
-		op := rapid.SampledFrom([]string{"init", "init", "init", "regtool", "regprompt", "regresource"}).Draw(t, "op")
+		op := rapid.SampledFrom([]string{"init", "init", "init", "init", "regtool", "regprompt", "regresource", "initburst"}).Draw(t, "op")
 		st := C16Step{Op: op}
 		if op == "init" {
 			st.Version = rapid.SampledFrom(c16Versions).Draw(t, "ver")
+		}
+		if op == "initburst" {
+			k := rapid.IntRange(2, 16).Draw(t, "burst")
+			for j := 0; j < k; j++ {
+				st.Burst = append(st.Burst, rapid.SampledFrom(c16Versions[:6]).Draw(t, "bver"))
+			}
+			st.Rounds = rapid.SampledFrom([]int{1, 10, 60}).Draw(t, "rounds")
+			if c.Mode == ModeStdio || c.Mode == ModeLegacy {
+				st.Rounds = 1 + st.Rounds/20 // a handshake costs a connection there
+			}
 		}
 		c.Steps = append(c.Steps, st)
 	}
@@ -53,7 +66,9 @@ func ntC16(c C16Case) (bool, []string) {
 	nt := false
 	regBefore := false
 	for _, s := range c.Steps {
-		if s.Op != "init" {
+		if s.Op == "initburst" {
+			nt = true
+		} else if s.Op != "init" {
 			regBefore = true
 		} else if (s.Version != "2025-03-26" && s.Version != "2024-11-05") || regBefore {
 			nt = true
@@ -92,13 +107,50 @@ func execC16(c C16Case) *Failure {
 			resources++
 			continue
 		}
+		if st.Op == "initburst" {
+			fails := make(chan *Failure, len(st.Burst))
+			var wg sync.WaitGroup
+			start := make(chan struct{})
+			for _, v := range st.Burst {
+				wg.Add(1)
+				go func(v string) {
+					defer wg.Done()
+					<-start
+					for r := 0; r < st.Rounds; r++ {
+						if f := c16Handshake(c, w, name, i, v, prompts, resources, fmt.Sprintf(" among %d concurrent handshakes asking for %v", len(st.Burst), st.Burst)); f != nil {
+							fails <- f
+							return
+						}
+					}
+				}(v)
+			}
+			close(start)
+			wg.Wait()
+			select {
+			case f := <-fails:
+				return f
+			default:
+			}
+			continue
+		}
+		if f := c16Handshake(c, w, name, i, st.Version, prompts, resources, ""); f != nil {
+			return f
+		}
+	}
+	return nil
+}
+
+// c16Handshake performs one initialize on a connection of its own and judges the answer.
+func c16Handshake(c C16Case, w *World, name string, i int, version string, prompts, resources int, note string) *Failure {
+	st := C16Step{Version: version}
+	{
 		conn, err := w.Dial()
 		if err != nil {
 			return Failf("C16/connect", "%s: %v", c.Mode, err)
 		}
 		ex := conn.Send(InitRequest("1", st.Version), "1", Bound()*4)
 		conn.Close()
-		where := fmt.Sprintf("%s step %d initialize(version %.40q) with %d prompts %d resources registered", c.Mode, i, st.Version, prompts, resources)
+		where := fmt.Sprintf("%s step %d initialize(version %.40q) with %d prompts %d resources registered%s", c.Mode, i, st.Version, prompts, resources, note)
 		if ex.Err != nil || len(ex.Frames) != 1 {
 			return TimingFailf("C16/no-answer", "%s: frames %d status %d err %v", where, len(ex.Frames), ex.Status, ex.Err)
 		}
